@@ -32,7 +32,8 @@ mods = sys.argv[1].split(','); flavour = sys.argv[2]; sys.argv = [sys.argv[0], '
 cargs = ['-fopenmp']; largs = ['-fopenmp']; directives = {}
 if flavour == 'checked':
     cargs += ['-D_GLIBCXX_ASSERTIONS', '-O1']
-    directives = {'boundscheck': True, 'wraparound': True, 'initializedcheck': True}
+    # wraparound stays off as in production: a negative index must be reported, not wrapped Python-style
+    directives = {'boundscheck': True, 'wraparound': False, 'initializedcheck': True}
 exts = [Extension(name=m, sources=[m.replace('.', '/') + '.pyx'], include_dirs=[numpy.get_include()],
                   extra_compile_args=cargs, extra_link_args=largs) for m in mods]
 setup(name='ov', ext_modules=cythonize(exts, compiler_directives=directives, force=True, quiet=True, nthreads=16),
@@ -49,8 +50,8 @@ def _sha(*chunks):
 
 
 def _strip_bounds_decorators(text):
-    text = re.sub(r'^\s*@cython\.(boundscheck|wraparound|initializedcheck)\(False\)\s*\n', '', text, flags=re.M)
-    text = re.sub(r'^#\s*cython:.*$', lambda m: re.sub(r'(boundscheck|wraparound)\s*=\s*False,?\s*', '', m.group(0)),
+    text = re.sub(r'^\s*@cython\.(boundscheck|initializedcheck)\(False\)\s*\n', '', text, flags=re.M)
+    text = re.sub(r'^#\s*cython:.*$', lambda m: re.sub(r'(boundscheck)\s*=\s*False,?\s*', '', m.group(0)),
                   text, flags=re.M)
     return text
 
@@ -112,7 +113,7 @@ def _sync_locked(flavour, root, quiet, t0):
         if not rel.endswith('.pyx'):
             continue
         q = os.path.join(dst, rel)
-        key = _sha(open(q, 'rb').read(), pxd, flavour, 'v2')
+        key = _sha(open(q, 'rb').read(), pxd, flavour, 'v2' if flavour == 'plain' else 'v3')
         base = rel[:-4]
         so = os.path.join(dst, base + EXT_SUFFIX)
         tag = so + '.key'
